@@ -188,6 +188,8 @@ func fullPool(r *vh.Run, rng *vh.RNG, name string, v2 bool) {
 	cs := w.Node.CM.TipState()
 	free := w.FreeCoins()
 	total := uint64(0)
+	var sent1 []types.Transaction
+	var sent2 []types.V2Transaction
 	order := rng.Perm(14)
 	for k := 0; k < 14 && k < len(free); k++ {
 		size := 1_500_000 + rng.Intn(400_000)
@@ -195,11 +197,13 @@ func fullPool(r *vh.Run, rng *vh.RNG, name string, v2 bool) {
 		var wt uint64
 		if v2 && k%3 != 2 {
 			t := w.SpendV2(cs, free[k:k+1], 1, fee, size)
+			sent1, sent2 = append([]types.Transaction(nil), w.LastV1...), append(append([]types.V2Transaction(nil), w.LastV2...), t)
 			wt = cs.V2TransactionWeight(t)
 			g.Track.PoolFull = total+wt >= 10*cs.MaxBlockWeight()
 			g.AddV2(w.TipID(), []types.V2Transaction{t}, nil, "fresh", -1, false)
 		} else {
 			t := w.SpendV1(cs, free[k:k+1], 1, fee, size)
+			sent1, sent2 = append(append([]types.Transaction(nil), w.LastV1...), t), append([]types.V2Transaction(nil), w.LastV2...)
 			wt = cs.TransactionWeight(t)
 			g.Track.PoolFull = total+wt >= 10*cs.MaxBlockWeight()
 			g.AddV1([]types.Transaction{t}, nil, "fresh", -1, false)
@@ -213,6 +217,8 @@ func fullPool(r *vh.Run, rng *vh.RNG, name string, v2 bool) {
 		}
 		if g.Track.PoolFull {
 			w.Stats["evictions"]++
+			// what is gone after this submission are the cheapest of what was pooled plus the new one
+			g.CheckEviction(sent1, sent2, "full pool")
 		}
 	}
 	g.Track.PoolFull = false
